@@ -1,12 +1,15 @@
 /-
   C02 — every packet returned by the encoder is one well-formed temporal unit (framing layer).
-  Property theorems only; models in SvtVerif/Model/{Leb128,Obu,Tu}.lean, helper lemmas in SvtVerif/Lemmas/{Obu,Tu}.lean.
+  Property theorems only; models in SvtVerif/Model/{Leb128,Obu,Tu,ObuSite}.lean, helper lemmas in
+  SvtVerif/Lemmas/{Obu,Tu,ObuSite}.lean; SvtVerif/Gen/ObuSites.lean is regenerated from /repo by xlate/obusites.py.
 -/
 import SvtVerif.Lemmas.Obu
 import SvtVerif.Lemmas.Tu
+import SvtVerif.Lemmas.ObuSite
+import SvtVerif.Gen.ObuSites
 
 namespace C02
-open Leb128 Obu ObuLemmas Tu TuLemmas
+open Leb128 Obu ObuLemmas Tu TuLemmas ObuSite ObuSiteLemmas
 
 /-- **LEB128 round trip.** For every value the C encoder accepts (`svt_aom_uleb_encode`, `value ≤ 2^56-1`,
     enough room), `dec_get_bits_leb128` reads back exactly the value and leaves exactly the bytes that
@@ -148,5 +151,125 @@ theorem tu_bytes_parse (es : List Entry) (hsz : ∀ o ∈ encodeTuObus es, o.pay
       · exact ⟨rfl, rfl⟩
   simp only [Obu.wellFormed, hty.1, hty.2, Bool.true_and, decide_eq_true_eq]
   exact hlen
+
+/-! ### the size-field reservation at every OBU writer (`obu_mem_move` / `write_uleb_obu_size`) -/
+
+/-- **Reserve – move – encode, all payload sizes.** At a site whose extracted expressions pass `Site.consistent`
+    (reserved value = encoded value = moved size = payload size, offsets as in the C code), the bytes the writer keeps
+    are exactly `write_obu_header` bytes ++ LEB128(payload size) ++ payload, for every OBU header and EVERY payload
+    below 2^28 bytes — in particular on both sides of the LEB128 length boundaries 127/128, 16383/16384, 2097151/2097152,
+    where the number of reserved bytes changes. -/
+theorem site_layout_serialize (s : Site) (hres : s.reserved.isSome = true) (hc : s.consistent = true)
+    (o : Obu.Obu) (hw : o.wellFormed = true) :
+    layoutSite s (headerBytes o) o.payload = serialize o := by
+  have hp : o.payload.length < 2 ^ 28 := by
+    simp only [Obu.wellFormed, Bool.and_eq_true, decide_eq_true_eq] at hw; exact hw.2
+  exact layout_consistent s hres hc (headerBytes o) o.payload hp
+
+/-- … and the decoder-side parser recovers exactly that OBU from them. -/
+theorem site_layout_parses (s : Site) (hres : s.reserved.isSome = true) (hc : s.consistent = true)
+    (o : Obu.Obu) (hw : o.wellFormed = true) :
+    parseObus (layoutSite s (headerBytes o) o.payload) = .ok [o] := by
+  rw [site_layout_serialize s hres hc o hw]
+  have := obu_frame_parse [o] (by intro o' ho'; simp only [List.mem_singleton] at ho'; subst ho'; exact hw)
+  simpa using this
+
+example : Gen.ObuSites.frameSite.reserved.isSome = true ∧ Gen.ObuSites.frameSite.consistent = true := by decide
+
+set_option maxRecDepth 16000 in
+/-- Payload sizes 126, 127, 128 through the extracted `write_frame_header_av1` site (non-vacuity on the boundary). -/
+example : ∀ n ∈ [126, 127, 128],
+    parseObus (layoutSite Gen.ObuSites.frameSite (headerBytes { obuType := 6, ext := none, payload := [] }) (List.replicate n 7))
+      = .ok [{ obuType := 6, ext := none, payload := List.replicate n 7 }] := by
+  intro n hn
+  exact site_layout_parses Gen.ObuSites.frameSite (by decide) (by decide) { obuType := 6, ext := none, payload := List.replicate n 7 }
+    (by simp only [List.mem_cons, List.not_mem_nil, or_false] at hn
+        rcases hn with rfl | rfl | rfl <;> decide)
+
+/-- **Sites without payload** (temporal delimiter: no `obu_mem_move`): a consistent site writes header ++ `00`, the
+    byte count its caller accounts (`TD_SIZE`) is exactly that, and the parser reads back an empty OBU. -/
+theorem site_layout_empty_parses (s : Site) (hres : s.reserved = none) (hc : s.consistent = true)
+    (o : Obu.Obu) (hw : o.wellFormed = true) (hpay : o.payload = []) (hk : s.hdrSize = some (headerBytes o).length) :
+    layoutSite s (headerBytes o) [] = serialize o ∧ parseObus (layoutSite s (headerBytes o) []) = .ok [o] := by
+  have h1 : layoutSite s (headerBytes o) [] = serialize o := by
+    rw [layout_consistent_empty s hres hc (headerBytes o) _ hk rfl]
+    have : encodeBytes (sizeInBytes 0) 0 = [0] := by decide
+    simp [serialize, hpay, this]
+  refine ⟨h1, ?_⟩
+  rw [h1]
+  have := obu_frame_parse [o] (by intro o' ho'; simp only [List.mem_singleton] at ho'; subst ho'; exact hw)
+  simpa using this
+
+example : layoutSite Gen.ObuSites.tdSite (headerBytes tdObu) [] = [0x12, 0x00] := by decide
+
+/-- **The converse: a reservation computed from another value breaks exactly at the LEB128 length boundaries.**
+    `mismatchedSite` reserves the length of header + payload (what passing the running size instead of the payload
+    size to `obu_mem_move` does) and encodes the payload size. Its output is the correct serialization iff the two
+    LEB128 lengths agree — e.g. not for a 127-byte payload behind a 1-byte header. -/
+theorem mismatched_reservation_iff (o : Obu.Obu) (hw : o.wellFormed = true) :
+    layoutSite mismatchedSite (headerBytes o) o.payload = serialize o ↔
+      sizeInBytes ((headerBytes o).length + o.payload.length) = sizeInBytes o.payload.length := by
+  have hp : o.payload.length < 2 ^ 28 := by
+    simp only [Obu.wellFormed, Bool.and_eq_true, decide_eq_true_eq] at hw; exact hw.2
+  have hh : (headerBytes o).length ≤ 2 := by
+    obtain ⟨t, ext, payload⟩ := o
+    simp only [Obu.wellFormed, Bool.and_eq_true] at hw
+    have ht := validObuType_lt t hw.1.1
+    cases ext with
+    | none => simp [headerBytes, header_byte_none ⟨t, ht⟩]
+    | some e => simp [headerBytes, header_byte_ext ⟨t, ht⟩]
+  obtain ⟨e1, e2, e3, e4, e5, e6⟩ := mismatched_eval (headerBytes o).length o.payload.length
+  have hL4 : sizeInBytes ((headerBytes o).length + o.payload.length) ≤ 5 := by
+    have : (headerBytes o).length + o.payload.length < 128 ^ 5 := by
+      have : (2 : Nat) ^ 28 + 2 < 128 ^ 5 := by norm_num
+      omega
+    exact sizeGo_le 10 _ 5 (by decide) this
+  have hrs : mismatchedSite.reserved = some (.add .hdr .payload) := rfl
+  have hav : mismatchedSite.avail = 4 := rfl
+  have hlay : layoutSite mismatchedSite (headerBytes o) o.payload =
+      (writeAt (memmove (headerBytes o ++ o.payload ++ List.replicate slack 0)
+        ((headerBytes o).length + sizeInBytes ((headerBytes o).length + o.payload.length)) (headerBytes o).length
+        (o.payload.length + (headerBytes o).length)) (headerBytes o).length
+        (encodeBytes (sizeInBytes o.payload.length) o.payload.length)).take
+        ((headerBytes o).length + o.payload.length + sizeInBytes ((headerBytes o).length + o.payload.length)) := by
+    simp only [layoutSite, hrs, hav, e1, e2, e3, e4, e5, e6, Int.toNat_natCast, ulebEncode_ok _ hp]
+  constructor
+  · intro h
+    have hlen := congrArg List.length h
+    rw [hlay, layout_length _ _ _ _ _ (by simp only [slack]; omega)
+      (by rw [encodeBytes_length]; exact sizeInBytes_le_slack _)] at hlen
+    simp only [serialize, List.length_append, encodeBytes_length] at hlen
+    omega
+  · intro h
+    rw [hlay, h]
+    have h4 := sizeInBytes_le_4 _ hp
+    exact layout_core _ _ _ _ _ (by simp only [slack]; omega) (encodeBytes_length _ _)
+
+set_option maxRecDepth 16000 in
+/-- Witness of the failure: a 127-byte OBU_FRAME payload through the mismatched reservation is no longer parsed back
+    (one stale byte follows the size field; the parser reads a 127-byte OBU and then meets a bogus OBU header). -/
+theorem mismatched_reservation_breaks :
+    ∃ o : Obu.Obu, o.wellFormed = true ∧ o.payload.length = 127 ∧
+      layoutSite mismatchedSite (headerBytes o) o.payload ≠ serialize o ∧
+      parseObus (layoutSite mismatchedSite (headerBytes o) o.payload) ≠ .ok [o] := by
+  refine ⟨{ obuType := 6, ext := none, payload := List.replicate 127 0xff }, by decide, by decide, ?_, ?_⟩
+  · intro h
+    have := (mismatched_reservation_iff _ (by decide)).mp h
+    revert this; decide
+  · decide
+
+/-- **Every framing site of the encoder** (regenerated from /repo by `xlate/obusites.py` on every run: metadata,
+    frame / frame header, sequence header, temporal delimiter at both of its callers) reserves, moves, encodes and
+    accounts consistently. This is the obligation that fails when a size-field reservation is computed from anything
+    but the encoded payload size. -/
+theorem all_sites_consistent : ∀ s ∈ Gen.ObuSites.sites, s.consistent = true := by decide
+
+/-- Consequence for the real sites: every OBU written at a moving site parses back, for all payload sizes. -/
+theorem all_sites_parse (s : Site) (hs : s ∈ Gen.ObuSites.sites) (hres : s.reserved.isSome = true)
+    (o : Obu.Obu) (hw : o.wellFormed = true) :
+    parseObus (layoutSite s (headerBytes o) o.payload) = .ok [o] :=
+  site_layout_parses s hres (all_sites_consistent s hs) o hw
+
+example : (Gen.ObuSites.sites.filter (fun s => s.reserved.isSome)).length ≥ 1 ∧ Gen.ObuSites.sites.length ≥ 2 := by decide
 
 end C02
